@@ -24,10 +24,24 @@ HUNITS = {
     'Section_hasSection_h': byh('Section', 'hasSection', 'Section'), 'Section_deleteSection_h': byh('Section', 'deleteSection', 'Section'),
     'Section_hasProperty_h': byh('Section', 'hasProperty', 'Property'), 'Section_deleteProperty_h': byh('Section', 'deleteProperty', 'Property'),
 }
-UNITS = dict(c08.UNITS); UNITS.update(HUNITS)
+RUNITS = {'BlockHDF5_findEntityGroup': dict(file='backend/hdf5/BlockHDF5.cpp', locator=r'boost::optional<H5Group>\s+BlockHDF5::findEntityGroup\s*\(', cls='BlockHDF5', cls_file='backend/hdf5/BlockHDF5.hpp',
+            classes=['nstring', 'H5Group', 'Identity', 'BlockHDF5'], member_calls={'groupForObjectType': 'BlockHDF5_groupForObjectType_1'}, ret_default='OPT_NONE_H5Group')}
+RUNITS['GroupHDF5_findEntityGroup'] = dict(file='backend/hdf5/GroupHDF5.cpp', locator=r'boost::optional<H5Group>\s+GroupHDF5::findEntityGroup\s*\(', cls='GroupHDF5', cls_file='backend/hdf5/GroupHDF5.hpp',
+            classes=['nstring', 'H5Group', 'Identity', 'GroupHDF5'], member_calls={'groupForObjectType': 'GroupHDF5_groupForObjectType_1'}, ret_default='OPT_NONE_H5Group',
+            calls={'findGroupByAttribute': 'findGroupByAttribute_g', 'getAttr': 'getAttr_g'})
+RUNITS['H5Group_findGroupByNameOrAttribute'] = dict(file='backend/hdf5/h5x/H5Group.cpp', locator=r'boost::optional<H5Group>\s+H5Group::findGroupByNameOrAttribute\s*\(', cls='H5Group', cls_file='backend/hdf5/h5x/H5Group.hpp',
+            classes=['nstring', 'H5Group'], member_calls={'hasObject': 'H5Group_hasObject_m', 'openGroup': 'H5Group_openGroup', 'findGroupByAttribute': 'H5Group_findGroupByAttribute_m'}, ret_default='OPT_NONE_H5Group')
+UNITS = dict(c08.GATE_UNITS); UNITS.update(HUNITS); UNITS.update(RUNITS)
 EXTRA = c08.EXTRA + 'bool gh_delete_answer;\n'
-JOBS = [dict(j, extra_c=EXTRA) for j in c08.JOBS] + [dict(name=fn, bodies=[fn], enforce=[fn], replace=[], extra_c=EXTRA, expect_kinds=['postcondition'], timeout=300) for fn in HUNITS]
-SPEC = dict(c08.SPEC, contracts=['nd.h', 'c08_gate.h', 'c03_handle.h'], include_order=['nd.h', 'c08_gate.h', 'c03_handle.h'], units=UNITS, jobs=JOBS)
+JOBS = [dict(j, extra_c=EXTRA) for j in c08.GATE_JOBS] + [dict(name=fn, bodies=[fn], enforce=[fn], replace=[], extra_c=EXTRA, expect_kinds=['postcondition'], timeout=300) for fn in HUNITS]
+REXTRA = 'int gh_container_present; int gh_name2grp[RS_IDS], gh_eid2grp[RS_IDS], gh_geid[RS_GRPS], gh_gname[RS_GRPS]; int gh_attr2grp[RS_IDS], gh_gattr[RS_GRPS]; int gh_uuid_shaped[RS_IDS]; int gh_scan_attr;\n'
+JOBS.append(dict(name='BlockHDF5_findEntityGroup', bodies=['BlockHDF5_findEntityGroup'], enforce=['BlockHDF5_findEntityGroup'], replace=[], extra_c=REXTRA, includes=['c03_resolve.h'],
+                 expect_kinds=['postcondition'], timeout=300))
+JOBS.append(dict(name='GroupHDF5_findEntityGroup', bodies=['GroupHDF5_findEntityGroup'], enforce=['GroupHDF5_findEntityGroup'], replace=[], extra_c=REXTRA, includes=['c03_resolve.h'],
+                 expect_kinds=['postcondition'], timeout=300))
+JOBS.append(dict(name='H5Group_findGroupByNameOrAttribute', bodies=['H5Group_findGroupByNameOrAttribute'], enforce=['H5Group_findGroupByNameOrAttribute'], replace=[], extra_c=REXTRA, includes=['c03_resolve.h'],
+                 expect_kinds=['postcondition'], timeout=300))
+SPEC = dict(c08.SPEC, contracts=['nd.h', 'c08_gate.h', 'c03_handle.h', 'c03_resolve.h'],  include_order=['nd.h', 'c08_gate.h', 'c03_handle.h'], units=UNITS, jobs=JOBS)
 SPEC['assumptions'] = ['KERNEL ONLY: decided are (1) the step "create refuses a name the back end reports as existing and hands only legal, not yet existing names to the create primitive, exactly once" '
                        'for File::createBlock/createSection, Block::createSource/DataArray/Tag/MultiTag/Group, Source::createSource, Section::createSection/createProperty, and (2) that has / delete BY HANDLE '
                        '(File::hasBlock/deleteBlock/hasSection/deleteSection, Block::deleteSource, Source::hasSource/deleteSource, Section::hasSection/deleteSection/hasProperty/deleteProperty) resolve the handle by its id; '
